@@ -420,6 +420,17 @@ func (w *Workload) WithDict(r *model.Rand, b *Base) {
 		b.Files["/sim/attrs2.yml"] = &simrt.FileSpec{Data: []byte(a2), Plan: GenPlan(r)}
 		b.Argv = append(b.Argv, "--chord", "/sim/chords2.yml", "--attr", "/sim/attrs2.yml", "--chord", "/sim/chords3.yml")
 		names = append(names, "Third", "th", "my", "my11", "MyChord")
+		if r.Chance(1, 5) {
+			// one of the later files cannot be used: every run must fail alike
+			switch r.Intn(3) {
+			case 0:
+				delete(b.Files, "/sim/chords3.yml")
+			case 1:
+				b.Files["/sim/attrs2.yml"] = &simrt.FileSpec{Data: []byte("- name: [unclosed\n")}
+			default:
+				b.Files["/sim/chords2.yml"] = &simrt.FileSpec{OpenErr: "EACCES"}
+			}
+		}
 	}
 	switch b.Class {
 	case "doc":
